@@ -51,9 +51,11 @@ def _run_once(chk):
         d = rng.choice(["-", "--", "ab", "é"])
         alpha = [c for c in SPECIALS if c != eol] + ([] if chars else [d, d])
         recs = ["".join(rng.choice(alpha) for _ in range(rng.randint(1, 6))) for _ in range(rng.randint(1, 2))]
-        if rng.random() < 0.05:
+        if rng.random() < 0.08:
             # a part of 15-513 characters, dense in characters that need escaping (each may grow sixfold)
-            recs[0] += "".join(medium_run(rng, [c for c in SPECIALS if c != eol]))
+            run = "".join(medium_run(rng, [c for c in SPECIALS if c != eol and (chars or c != d)]))
+            # (in field mode the run is a part of its own: exactly 15 … 513 characters between two delimiters)
+            recs[0] = recs[0] + run if chars else recs[0] + d + run + rng.choice(["", d + "x"])
         nb = rng.randint(1, 3)
         bs = []
         for _ in range(nb):
